@@ -112,44 +112,54 @@ func (w *World) ruleGetTagProtocol(r *Report, rule string) {
 	r.add(rule, "getTag", w.pos(fn.Pos()), okHand && okFresh && bad == "", "returns byte(flag) iff flag != -1, otherwise reads exactly one octet"+map[bool]string{true: "", false: "; " + bad}[bad == ""])
 }
 
-// paramCtx: union over in-package call sites of the values passed for the
-// byte parameter of fn.
-func (w *World) paramCtx(fn *ssa.Function) ISet {
-	idx := -1
-	for i, p := range fn.Params {
-		if typeStr(p.Type()) == "byte" || typeStr(p.Type()) == "uint8" {
-			idx = i
-		}
-	}
-	if idx < 0 {
+// paramCtxEnv: for every integer parameter of fn, the union over the in-package
+// call sites of the values passed for it (entry facts for a context-sensitive
+// run of fn).  A parameter some site passes an unknown value for is left out;
+// nil when fn has no static in-package call site or can be called from outside.
+func (w *World) paramCtxEnv(fn *ssa.Function) Env {
+	if token.IsExported(fn.Name()) {
 		return nil
 	}
-	var ctx ISet
+	sets := make([]ISet, len(fn.Params))
+	unknown := make([]bool, len(fn.Params))
 	sites := 0
 	for _, caller := range w.SrcFuncs() {
 		for _, cs := range w.callSitesIn(caller) {
-			if cs.call.Call.StaticCallee() != fn {
+			if cs.call.Call.StaticCallee() != fn || len(cs.call.Call.Args) != len(fn.Params) {
 				continue
 			}
 			sites++
 			f := w.flow(caller)
-			s, _ := f.ValueAt(cs.call.Call.Args[idx], cs.call.Block())
-			if s == nil {
-				return nil
+			for i, p := range fn.Params {
+				if _, ok := typeRange(w, p.Type()); !ok {
+					continue
+				}
+				s, _ := f.ValueAt(cs.call.Call.Args[i], cs.call.Block())
+				if s == nil {
+					unknown[i] = true
+					continue
+				}
+				sets[i] = sets[i].Union(s)
 			}
-			ctx = ctx.Union(s)
 		}
 	}
 	if sites == 0 {
 		return nil
 	}
-	return ctx
+	env := Env{}
+	for i, p := range fn.Params {
+		if sets[i] != nil && !unknown[i] {
+			env["<p:"+p.Name()+">"] = sets[i]
+		}
+	}
+	return env
 }
 
 // ruleLookAhead.
 func (w *World) ruleLookAhead(r *Report, rule string) {
 	cs := w.codecs()
 	n := 0
+	var covered ISet
 	for _, fn := range w.SrcFuncs() {
 		recv := fn.Signature.Recv()
 		if recv == nil || !namedIs(recv.Type(), hessianPath, "Decoder") {
@@ -160,12 +170,13 @@ func (w *World) ruleLookAhead(r *Report, rule string) {
 			continue
 		}
 		var f *Flow
-		if p, isParam := tag.(*ssa.Parameter); isParam {
-			ctx := w.paramCtx(fn)
-			if ctx == nil {
+		if _, isParam := tag.(*ssa.Parameter); isParam {
+			// call-site context for the tag and for every other integer
+			// parameter (a helper may be handed the tag values it compares with)
+			if ctx := w.paramCtxEnv(fn); len(ctx) == 0 {
 				f = w.flow(fn)
 			} else {
-				f = w.flowCtx(fn, Env{"<p:" + p.Name() + ">": ctx})
+				f = w.flowCtx(fn, ctx)
 			}
 		} else {
 			f = w.flow(fn)
@@ -228,12 +239,21 @@ func (w *World) ruleLookAhead(r *Report, rule string) {
 			cnt[site.callee]++
 			S, _ := f.ValueAt(tag, site.call.Block())
 			_ = tk
+			covered = covered.Union(S)
 			inter := S.Intersect(first)
 			r.add(rule, fmt.Sprintf("%s · fresh %s read #%d", fnName(fn), prod, cnt[site.callee]), w.instrPos(site.call), inter.Empty(),
 				fmt.Sprintf("octet already consumed ∈ %s; first octets of a %s value = %s; overlap %s", S.HexString(), prod, first.HexString(), inter.HexString()))
 		}
 	}
-	r.floor(rule, n, 5)
+	// floor over the grammar, not over call sites (two readers may share one
+	// length helper): every header octet after which the grammar continues with
+	// a type or an int must be the consumed octet of some checked fresh read
+	hdr := specTags("map-typed", "").Union(specTags("ref", "")).Union(specTags("list-typed", "")).Union(specTags("list-untyped", "fixed"))
+	got := 0
+	if c := covered.Intersect(hdr); !c.Empty() && c.Card().IsInt64() {
+		got = int(c.Card().Int64())
+	}
+	r.floor(rule+" (header octets followed by a type or an int that a checked read covers)", got, int(hdr.Card().Int64()))
 }
 
 // ruleHeaderSiblings: after 'M' (both readers) and after a typed-list tag the
